@@ -20,7 +20,8 @@ RULE = ('Valid powertrains with emphasis on self-locking models that end a run h
         'n2*dt] and as [run (n1+n2)*dt], any split point, the continuation optionally written in another time unit; '
         '(its duration optionally in a third unit); time axis and EVERY recorded series must agree - bit-identically when dt is dyadic (2^-j s) and the unit is '
         'kept, within 1e-9 relative otherwise (cases whose timer windows / lock decisions lie within 1e-9 of a grid '
-        'instant or threshold are counted as near-threshold and skipped). rerun: [schedule, reset, re-apply the '
+        'instant or threshold are counted as near-threshold and skipped). long-split: the same with short chains and '
+        '8192..80000 steps in total (the step count of a segment must not depend on where the duration is cut). rerun: [schedule, reset, re-apply the '
         'initial conditions, same schedule] with the same or a new Solver must reproduce the first epoch '
         'bit-identically (time axis, every series, every element). Non-trivial = the split falls while the '
         'powertrain is held, or a rule window spans the seam, or the load depends on time (rerun: the first epoch '
@@ -106,9 +107,16 @@ def check_split(case) -> Result:
     T2 = [dt2[0] * n2, dt2[1]]
     if sp.get('unitT2') and sp['unitT2'] != dt2[1]:
         T2 = [float(U.convert_exact('TimeInterval', dt2[0], dt2[1], sp['unitT2']) * n2), sp['unitT2']]
-    A = dict(case, history=[{'op': 'run', 'dt': dt, 'T': [dt[0] * n1, dt[1]], 'control': ctl},
+    T1, T12 = [dt[0] * n1, dt[1]], [dt[0] * (n1 + n2), dt[1]]
+    if sp.get('literal'):
+        # decimal step m*10^-e: the durations are written as the decimal literals of m*n*10^-e (dt = 1 ms, T = 32.005 s)
+        m_, e_ = sp['literal']
+        T1, T12 = [float(Fr(m_ * n1, 10 ** e_)), dt[1]], [float(Fr(m_ * (n1 + n2), 10 ** e_)), dt[1]]
+        if u2 == dt[1] and not (sp.get('unitT2') and sp['unitT2'] != dt2[1]):
+            T2 = [float(Fr(m_ * n2, 10 ** e_)), dt[1]]
+    A = dict(case, history=[{'op': 'run', 'dt': dt, 'T': T1, 'control': ctl},
                             {'op': 'run', 'dt': dt2, 'T': T2, 'control': ctl}])
-    Bc = dict(case, history=[{'op': 'run', 'dt': dt, 'T': [dt[0] * (n1 + n2), dt[1]], 'control': ctl}])
+    Bc = dict(case, history=[{'op': 'run', 'dt': dt, 'T': T12, 'control': ctl}])
     try:
         ba, ta, ea = S.simulate(A)
         bb, tb, eb = S.simulate(Bc)
@@ -221,9 +229,16 @@ def s_base(draw, max_len=5):
 
 
 @st.composite
-def s_split(draw, max_steps=40):
-    case, mdl = draw(s_base())
+def s_split(draw, max_steps=40, long=0):
+    case, mdl = draw(s_base(max_len=2 if long else 5))
     n1, n2 = draw(st.integers(2, max_steps)), draw(st.integers(2, max_steps))
+    if long:
+        # long, finely discretised runs (tens of thousands of steps): the step count of each segment must not
+        # depend on how the total duration is cut
+        case['load']['csin'] = 0.0       # over 10^4 steps a position-dependent load amplifies rounding beyond any fixed tolerance
+        total = draw(st.integers(8192, long))
+        n1 = draw(st.integers(2, total - 2))
+        n2 = total - n1
     if draw(st.booleans()):
         # dyadic step in seconds close to the model's natural step
         import math
@@ -236,6 +251,14 @@ def s_split(draw, max_steps=40):
         unit2 = draw(st.sampled_from([None, None, 'sec', 'ms', 'min', 'hour']))
     case['split'] = {'dt': dt, 'n1': n1, 'n2': n2, 'unit2': unit2,
                      'unitT2': draw(st.sampled_from([None, None, 'sec', 'ms', 'min', 'hour']))}
+    if long and draw(st.integers(0, 3)) > 0:
+        # a decimal step near the natural one, durations as decimal literals
+        import math
+        target = U.si('TimeInterval', *dt)
+        e = max(0, min(9, 2 - math.floor(math.log10(target))))
+        m = max(1, round(target * 10 ** e))
+        case['split'].update(dt=[float(Fr(m, 10 ** e)), 'sec'], literal=[m, e])
+        dt = case['split']['dt']
     case['history'] = []
     horizon = U.si('TimeInterval', *dt) * (n1 + n2)
     rules = G.s_constant_rules(draw, horizon, max_rules=3)
@@ -256,6 +279,21 @@ def s_rerun(draw, max_steps=40):
     case['history'] = []
     horizon = sum(U.si('TimeInterval', *r['T']) for r in sched)
     rules = G.s_constant_rules(draw, horizon, max_rules=3)
+    if case['motor'].get('i0') is not None and draw(st.integers(0, 2)) == 0:
+        # the library's own start / positioning rules: they read the motor's load and the sensors from the first instant
+        # on, so a rerun must present them the same state as the first run did
+        last = len(case['chain'])
+        p0 = U.si('AngularPosition', *case['init']['pos'])
+        ahead = draw(st.floats(0.5, 200.0)) * (1 if case['motor'].get('pwm0', 1) >= 0 else -1)
+        kind = draw(st.sampled_from(['ramp', 'ramp', 'reach']))
+        if draw(st.integers(0, 3)) > 0:
+            rules = []             # (a timer window open while such a rule applies is rejected by the arbitration)
+        if kind == 'ramp':
+            rules = list(rules) + [{'rule': 'ramp', 'enc': last, 'target': G.qty('AngularPosition', p0 + ahead, 'rad'),
+                                    'mult': draw(st.floats(1.1, 4)), 'pwm_min': draw(st.sampled_from([None, None, 0.2]))}]
+        else:
+            rules = list(rules) + [{'rule': 'reach', 'enc': last, 'target': G.qty('AngularPosition', p0 + ahead, 'rad'),
+                                    'braking': G.qty('Angle', abs(ahead) * draw(st.floats(0.05, 0.9)), draw(G.s_unit('Angle')))}]
     if rules:
         case['control'] = rules
     return case
@@ -264,6 +302,8 @@ def s_rerun(draw, max_steps=40):
 def parts(tier):
     if tier == 'quick':
         return [Part('split', check_split, strategy=s_split(30), examples=200, shards=4),
-                Part('rerun', check_rerun, strategy=s_rerun(30), examples=200, shards=4)]
+                Part('rerun', check_rerun, strategy=s_rerun(30), examples=200, shards=4),
+                Part('long-split', check_split, strategy=s_split(30, long=20000), examples=5, shards=4)]
     return [Part('split', check_split, strategy=s_split(100), examples=1500, shards=8),
-            Part('rerun', check_rerun, strategy=s_rerun(100), examples=1500, shards=8)]
+            Part('rerun', check_rerun, strategy=s_rerun(100), examples=1500, shards=8),
+            Part('long-split', check_split, strategy=s_split(30, long=80000), examples=12, shards=16)]
